@@ -672,14 +672,15 @@ Definition decode_and_validate (F : nat) (s : schema) (cur : cval) (v : value) :
 
 End Decode.
 
-(* ---------------------------------------------------------------- fuel: twice the depth of the value tree plus a constant *)
+(* ---------------------------------------------------------------- fuel: three times the depth of the value tree plus three
+   (a shorthand hook costs two extra levels; bound proved in Proofs/ConfigFuelProofs.v) *)
 Fixpoint vdepth (v : value) : nat :=
   match v with
   | VList l => S ((fix go (l : list value) : nat := match l with [] => O | x :: r => Nat.max (vdepth x) (go r) end) l)
   | VMap kvs => S ((fix go (l : list (str * value)) : nat := match l with [] => O | (_, x) :: r => Nat.max (vdepth x) (go r) end) kvs)
   | _ => O
   end.
-Definition fuel_for (v : value) : nat := (2 * vdepth v + 4)%nat.
+Definition fuel_for (v : value) : nat := (3 * vdepth v + 3)%nat.
 
 (* ---------------------------------------------------------------- cli.readConfig pre-pass *)
 Definition s_pools : str := [112;111;111;108;115].
